@@ -64,12 +64,16 @@ def _red(op, vals):
 class _Shared:
     """the communicator object shared by its members"""
 
-    def __init__(self, sim, members, dims=None):
+    def __init__(self, sim, members, dims=None, key=()):
         self.sim = sim
         self.members = list(members)       # world ranks, in communicator order
         self.n = len(self.members)
         self.dims = dims
-        self.id = sim._new_comm_id()
+        # schedule-independent identity: (parent key, index of the creating collective on the parent, group)
+        self.key = key
+        self.id = key
+        self.nfires = 0
+        sim._all_comms.append(self)
         self.waiting = {}                  # comm rank -> (op, sig, payload)
 
 
@@ -272,12 +276,12 @@ class _Sim:
         self.fires = []
         self.comms = {}
         self._cid = 0
+        self._all_comms = []
         self.res = [None] * n
         self.errs = [None] * n
         self.outcome = 'ok'
         self.detail = ''
         self.world = _Shared(self, range(n))
-        self.comms[self.world.id] = list(range(n))
 
     def _new_comm_id(self):
         c = self._cid
@@ -338,21 +342,22 @@ class _Sim:
         sigs = set(w[1] for w in sh.waiting.values())
         if len(ops) != 1 or len(sigs) != 1:
             self.outcome = 'mismatch'
-            self.detail = 'comm %d members %r wait with %r' % (
+            self.detail = 'comm %r members %r wait with %r' % (
                 sh.id, sh.members, {sh.members[k]: (w[0], w[1]) for k, w in sh.waiting.items()})
             return False
         op = next(iter(ops))
         pay = [sh.waiting[k][2] for k in range(sh.n)]
         self.fires.append((sh.id, op, tuple(sh.members)))
+        fire_no = sh.nfires
+        sh.nfires += 1
         if op == 'Split':
             groups = {}
             for k, (c, key) in enumerate(pay):
                 groups.setdefault(c, []).append((key, k))
             out = [None] * sh.n
-            for c in sorted(groups):
+            for gi, c in enumerate(sorted(groups)):
                 mem = [k for key, k in sorted(groups[c])]
-                nsh = _Shared(self, [sh.members[k] for k in mem])
-                self.comms[nsh.id] = list(nsh.members)
+                nsh = _Shared(self, [sh.members[k] for k in mem], key=sh.key + ((fire_no, gi),))
                 for pos, k in enumerate(mem):
                     out[k] = Comm(nsh, pos)
         elif op == 'Create_cart':
@@ -364,8 +369,7 @@ class _Sim:
                 self.outcome = 'exception'
                 self.detail = 'Create_cart dims %r on %d ranks' % (dims, sh.n)
                 return False
-            nsh = _Shared(self, sh.members, dims=dims)
-            self.comms[nsh.id] = list(nsh.members)
+            nsh = _Shared(self, sh.members, dims=dims, key=sh.key + ((fire_no, 0),))
             out = [Comm(nsh, k) for k in range(sh.n)]
         elif op == 'Sub':
             remain = pay[0]
@@ -377,11 +381,10 @@ class _Sim:
                 key = tuple(c for c, kp in zip(co, remain) if kp)
                 groups.setdefault(color, []).append((key, k))
             out = [None] * sh.n
-            for color in sorted(groups):
+            for gi, color in enumerate(sorted(groups)):
                 mem = [k for key, k in sorted(groups[color])]
                 nd = [d for d, kp in zip(sh.dims, remain) if kp]
-                nsh = _Shared(self, [sh.members[k] for k in mem], dims=nd)
-                self.comms[nsh.id] = list(nsh.members)
+                nsh = _Shared(self, [sh.members[k] for k in mem], dims=nd, key=sh.key + ((fire_no, gi),))
                 for pos, k in enumerate(mem):
                     out[k] = Comm(nsh, pos)
         else:
@@ -461,8 +464,12 @@ class _Sim:
             t.join(timeout=5.0)
         R = Result()
         R.outcome, R.detail = self.outcome, self.detail
-        R.results, R.errors, R.trace = self.res, self.errs, self.trace
-        R.fires, R.comms = self.fires, self.comms
+        # canonical small communicator ids, independent of the schedule
+        canon = {k: i for i, k in enumerate(sorted(c.key for c in self._all_comms))}
+        R.results, R.errors = self.res, self.errs
+        R.trace = [[(op, canon[cid], root, count, dtype) for (op, cid, root, count, dtype) in tr] for tr in self.trace]
+        R.fires = [(canon[cid], op, mem) for (cid, op, mem) in self.fires]
+        R.comms = {canon[c.key]: list(c.members) for c in self._all_comms}
         if R.outcome == 'exception' and not R.detail:
             for r, e in enumerate(self.errs):
                 if e is not None:
